@@ -1247,22 +1247,15 @@ func (c *Ctx) recursionGates(fns []*ssa.Function, reach map[*ssa.Function]bool) 
 			if b, isC := constBool(com.Args[2]); isC && b {
 				return "callee passes the execution-depth gate (execProc = true)", true
 			}
-			if e.from == ia.executeOne {
-				target := e.site.Block()
-				var depthGate *ssa.BasicBlock
-				eachInstr(ia.executeOne, func(ins ssa.Instruction) {
-					if st, ok := ins.(*ssa.Store); ok && isFieldAddr(st.Addr, ia.T, c.fld("intp.execDepth")) {
-						if bo, ok := st.Val.(*ssa.BinOp); ok && bo.Op == token.ADD {
-							depthGate = st.Block()
-						}
-					}
-				})
-				if depthGate != nil {
-					q := &pathQuery{fn: ia.executeOne, isTarget: func(b *ssa.BasicBlock) bool { return b == target }, avoid: func(b *ssa.BasicBlock) bool { return b == depthGate }}
-					if !q.search() {
-						return "the calling frame has passed the execution-depth gate (path-sensitive search, rule L3 of C11)", true
-					}
-				}
+			if why, ok := c.frameGated(ia, e); ok {
+				return why, true
+			}
+		case c.depthGateFn(ia) != nil && (e.from == c.depthGateFn(ia) || c.extendsGate(ia, e.from) != nil):
+			// a call made by the function that holds the depth gate (or by the part of it that was
+			// split off and is only entered through it) at a point that cannot be reached without
+			// having passed the gate
+			if why, ok := c.frameGated(ia, e); ok {
+				return why, true
 			}
 		case e.from == eexecFn && e.to == ia.execScanner:
 			return "nested eexec is refused by BeginEexec (rule L3-EEXEC)", true
@@ -1484,6 +1477,10 @@ func (c *Ctx) classifyLoop(fn *ssa.Function, h *ssa.BasicBlock, body map[*ssa.Ba
 			}
 			return "P2 counted", "induction variable " + phi.Comment + " counts " + dir + " to a loop-invariant bound"
 		}
+	}
+	// P5: a loop over a stack of pending work whose growth is bounded
+	if why, ok := workLoopClass(fn, h); ok {
+		return "P5 work list", why
 	}
 	// P3/P4: every cycle through the loop passes a consuming call / a budgeted dispatch
 	cutP3 := func(b *ssa.BasicBlock) bool {
@@ -1795,4 +1792,108 @@ func nonNilOnEdge(v ssa.Value, pred, succ *ssa.BasicBlock) bool {
 		}
 	}
 	return false
+}
+
+// depthGateFn: the function that holds the execution-depth gate (the guarded increment of the
+// depth counter) and the block of the increment.
+func (c *Ctx) depthGateFn(ia *interpAnchors) *ssa.Function {
+	f, _ := c.depthGate(ia)
+	return f
+}
+
+var depthGateCache struct {
+	c  *Ctx
+	f  *ssa.Function
+	b  *ssa.BasicBlock
+	ok bool
+}
+
+func (c *Ctx) depthGate(ia *interpAnchors) (*ssa.Function, *ssa.BasicBlock) {
+	if depthGateCache.ok && depthGateCache.c == c {
+		return depthGateCache.f, depthGateCache.b
+	}
+	var gf *ssa.Function
+	var gb *ssa.BasicBlock
+	defer func() {
+		depthGateCache.c, depthGateCache.f, depthGateCache.b, depthGateCache.ok = c, gf, gb, true
+	}()
+	for _, fn := range c.modFuncs {
+		eachInstr(fn, func(ins ssa.Instruction) {
+			if st, ok := ins.(*ssa.Store); ok && isFieldAddr(st.Addr, ia.T, c.fld("intp.execDepth")) {
+				if bo, ok := st.Val.(*ssa.BinOp); ok && bo.Op == token.ADD {
+					gf, gb = fn, st.Block()
+				}
+			}
+		})
+	}
+	return gf, gb
+}
+
+// extendsGate: h is a part of the gate function that was split off: every use of h is a static
+// call from the gate function; returns that call (nil otherwise).
+func (c *Ctx) extendsGate(ia *interpAnchors, h *ssa.Function) *ssa.Call {
+	g := c.depthGateFn(ia)
+	if g == nil || h == g || h == nil {
+		return nil
+	}
+	sites := staticCallSites(h)
+	if len(sites) != 1 || sites[0].Parent() != g {
+		return nil
+	}
+	return sites[0]
+}
+
+// frameGated: the call e.site is made by a frame that has passed the depth gate: in the gate
+// function it cannot be reached from the entry without passing the increment; in a split-off part
+// it can only be reached with a boolean parameter true that the gate function forwards unchanged,
+// and with that parameter true the gate function cannot reach its call of the part without
+// passing the increment.
+func (c *Ctx) frameGated(ia *interpAnchors, e cgEdge) (string, bool) {
+	g, gate := c.depthGate(ia)
+	if g == nil || e.site == nil {
+		return "", false
+	}
+	target := e.site.Block()
+	if e.from == g {
+		q := &pathQuery{fn: g, isTarget: func(b *ssa.BasicBlock) bool { return b == target }, avoid: func(b *ssa.BasicBlock) bool { return b == gate }}
+		if !q.search() {
+			return "the calling frame has passed the execution-depth gate (path-sensitive search, rule L3 of C11)", true
+		}
+		return "", false
+	}
+	call := c.extendsGate(ia, e.from)
+	if call == nil {
+		return "", false
+	}
+	h := e.from
+	for i, hp := range h.Params {
+		if b, ok := hp.Type().Underlying().(*types.Basic); !ok || b.Kind() != types.Bool {
+			continue
+		}
+		if i >= len(call.Call.Args) {
+			continue
+		}
+		gp, ok := call.Call.Args[i].(*ssa.Parameter)
+		if !ok || gp.Parent() != g {
+			continue
+		}
+		// with the flag false the site is unreachable in the part …
+		q1 := &pathQuery{fn: h, isTarget: func(b *ssa.BasicBlock) bool { return b == target }, initBools: map[ssa.Value]bool{hp: false}}
+		if q1.search() {
+			continue
+		}
+		// … and with the flag true the gate function passes the increment before entering the part
+		cb := call.Block()
+		q2 := &pathQuery{fn: g, isTarget: func(b *ssa.BasicBlock) bool { return b == cb }, avoid: func(b *ssa.BasicBlock) bool { return b == gate }, initBools: map[ssa.Value]bool{gp: true}}
+		if !q2.search() {
+			return "the calling frame has passed the execution-depth gate: the call is reachable only with the flag " + hp.Name() + " set, under which the function holding the gate increments the depth before entering this part of it", true
+		}
+	}
+	// the part is entered only behind the gate whatever the flags are
+	cb := call.Block()
+	q := &pathQuery{fn: g, isTarget: func(b *ssa.BasicBlock) bool { return b == cb }, avoid: func(b *ssa.BasicBlock) bool { return b == gate }}
+	if !q.search() {
+		return "the calling frame has passed the execution-depth gate (the part is entered only behind it)", true
+	}
+	return "", false
 }
